@@ -358,6 +358,22 @@ impl SubCheck for C06Scope {
                 }
             }
         }
+        // repeated unhooked processes (fresh hash seeds): which same-named type an import or reference means must not
+        // depend on hash iteration order either
+        if out.is_empty() {
+            for k in 0..run.tier.pick(8, 24) {
+                match generate(&tree, &root.join("outR"), lang, true, &[]) {
+                    Ok(o) => {
+                        if o.0 != base.0 {
+                            let kind = moved_kind(lang, &base, &o, w);
+                            out.push(Violation::new(format!("scoping/folder/{}/seed-dependent/{}", lang.short(), kind), format!("{} folder mode, same-named types in two crates: repeat #{k} of the identical run differs from the first (first difference: {kind})", lang.name())));
+                            break;
+                        }
+                    }
+                    Err(_) => break,
+                }
+            }
+        }
         let _ = std::fs::remove_dir_all(&root);
         out
     }
